@@ -13,7 +13,7 @@
    SOME top-L set in the query direction (ties are not ordered).  Executable definitions and
    statements only. *)
 From Coq Require Import List ZArith NArith QArith String Ascii Bool Permutation.
-From Qryn Require Import lib.Strs model.Sql model.Logql model.LogqlPlan model.SqlEval.
+From Qryn Require Import lib.Strs model.Sql model.Logql model.LogqlRegexp model.LogqlPlan model.SqlEval.
 Import ListNotations.
 Open Scope string_scope.
 
@@ -80,7 +80,16 @@ Definition topk (asc : bool) (k : Z) (all res : list outrow) : Prop :=
     /\ Z.of_nat (List.length res) = Z.min k (Z.of_nat (List.length all))
     /\ forall r o, List.In r res -> List.In o rest -> if asc then (o_ts r <= o_ts o)%Z else (o_ts o <= o_ts r)%Z.
 
+(* ---------- the `| regexp "..."` stage: what the text of the expression says (spec side of model/LogqlRegexp.v) ----------
+   capture group i is the i-th opening parenthesis of the expression; it is named by the `?P<name>` written in it ("" for
+   a plain group); the expression whose groups are extracted is the text with every `(?P<name>` replaced by `(`. *)
+Definition re_source (ps : list parser_param) : string := match ps with p0 :: _ => pp_val p0 | [] => "" end.
+Definition re_toks (ps : list parser_param) : list rtok := match lex_re (re_source ps) with Some ts => ts | None => [] end.
+Definition re_sent (ps : list parser_param) : string := tok_sent (re_toks ps).
+Definition re_names (ps : list parser_param) : list string := tok_names (re_toks ps).
+
 Section SEM.
+  Context {RG : ReGroups}.
   Variable re_match : string -> string -> bool.
   Variable parse_float : string -> option Q.
 
@@ -225,6 +234,10 @@ Section SEM.
       | _ => True
       end
     | PLabelFilter f => lf_oracle_ok f
+    (* the expression sent for a regexp stage is an RE2 expression with as many capture groups as the text of the stage
+       opens (not so for `(?:`, `(?i)`, a parenthesis inside a character class: arrayFilter over arrays of different sizes) *)
+    | PParser PRegexp ps =>
+      forall line, exists vs, re_groups (re_sent ps) line = Some vs /\ List.length vs = List.length (re_names ps)
     | _ => True
     end.
   Definition oracle_ok (q : strsel) : Prop := forall s, List.In s (sel_pipeline q) -> stage_oracle_ok s.
@@ -256,6 +269,7 @@ Definition drop_spec (p : string * option string) : string * option string :=
   (fst p, match snd p with Some v => if String.eqb v "" then None else Some v | None => None end).
 
 Section SEM2.
+  Context {RG : ReGroups}.
   Variable re_match : string -> string -> bool.
   Variable parse_float : string -> option Q.
   Variable json_get : string -> list string -> string.      (* the value a json parameter extracts from a line *)
@@ -276,6 +290,19 @@ Section SEM2.
   Definition drop_stage (ps : list (string * option string)) (st : pstate) : pstate :=
     let ls := filter (drop_keeps (map drop_spec ps)) (p_labels st) in
     {| p_labels := ls; p_fp := hash_labels ls |}.
+  (* `| regexp "re"`: the non-empty texts the NAMED capture groups took in the (last) match of the expression in the line
+     are written over the label map, and the line is re-fingerprinted like a json-parsed line; a line the expression
+     does not match keeps its labels. (The oracle is asked first: under the default instance no_groups the stage is
+     None whatever its parameters.) *)
+  Definition regexp_stage (ps : list parser_param) (line : string) (st : pstate) : option pstate :=
+    match re_groups (re_sent ps) line with
+    | Some vs =>
+      if Nat.eqb (List.length vs) (List.length (re_names ps)) then
+        let ls := map_update (p_labels st) (re_pairs (re_names ps) vs) in
+        Some {| p_labels := ls; p_fp := hash_labels ls |}
+      else None
+    | None => None
+    end.
   (* None = the line is filtered out (or the stage is outside the modelled pipeline) *)
   Fixpoint run_stages (ppl : list stage) (line : string) (st : pstate) : option pstate :=
     match ppl with
@@ -283,6 +310,7 @@ Section SEM2.
     | PLineFilter op v _ :: r => if line_ok re_match line op v then run_stages r line st else None
     | PLabelFilter f :: r => if lf_ok re_match parse_float (p_labels st) f then run_stages r line st else None
     | PParser PJson ps :: r => match json_stage ps line st with Some st' => run_stages r line st' | None => None end
+    | PParser PRegexp ps :: r => match regexp_stage ps line st with Some st' => run_stages r line st' | None => None end
     | PDrop ps :: r => run_stages r line (drop_stage ps st)
     | _ :: _ => None
     end.
@@ -301,7 +329,7 @@ Section SEM2.
     else topk (c_asc c) (c_limit c) (log_rows2 q c d) res.
 
   (* the fragment with relabelling stages: line filters, label filters, json stages with parameters (every path splits,
-     labels of one stage distinct) and drops IN ANY ORDER (since fix 1c90aa9 a filter shares a select only with
+     labels of one stage distinct), regexp stages and drops IN ANY ORDER (since fix 1c90aa9 a filter shares a select only with
      relabelling stages written before it), at least one json or drop. *)
   Definition json_ok (ps : list parser_param) : bool :=
     match all_paths ps with Some _ => true | None => false end
@@ -312,19 +340,30 @@ Section SEM2.
     match s with PLineFilter _ _ _ => true | PLabelFilter f => lf_supported f | _ => false end.
   Definition is_json (s : stage) : bool := match s with PParser PJson ps => json_ok ps | _ => false end.
   Definition is_drop (s : stage) : bool := match s with PDrop _ => true | _ => false end.
+  (* a regexp stage: the planner's grammar accepts the expression, the names of its named groups are distinct *)
+  Definition regexp_ok (ps : list parser_param) : bool :=
+    negb (Nat.eqb (List.length ps) 0)
+    && match re_plan (re_source ps) with
+       | Some (_, names) =>
+         (fix nodup (l : list string) : bool :=
+            match l with [] => true | x :: r => negb (existsb (String.eqb x) r) && nodup r end)
+           (filter (fun n => negb (String.eqb n "")) names)
+       | None => false
+       end.
+  Definition is_regexp (s : stage) : bool := match s with PParser PRegexp ps => regexp_ok ps | _ => false end.
   Fixpoint take_while {A} (p : A -> bool) (l : list A) : list A :=
     match l with x :: r => if p x then x :: take_while p r else [] | [] => [] end.
   Fixpoint drop_while {A} (p : A -> bool) (l : list A) : list A :=
     match l with x :: r => if p x then drop_while p r else l | [] => [] end.
   Definition in_fragment2 (q : strsel) : bool :=
     negb (Nat.eqb (List.length (sel_matchers q)) 0)
-    && forallb (fun s => is_filter s || is_json s || is_drop s) (sel_pipeline q)
-    && existsb (fun s => is_json s || is_drop s) (sel_pipeline q).
+    && forallb (fun s => is_filter s || is_json s || is_drop s || is_regexp s) (sel_pipeline q)
+    && existsb (fun s => is_json s || is_drop s || is_regexp s) (sel_pipeline q).
 End SEM2.
 
 (* "the SQL of q, executed over d, is the reference answer": the planners produce a SELECT, it evaluates
    (inside the modelled ClickHouse subset) to rows that read back as the lines logql_sem defines *)
-Definition log_correct (re_match : string -> string -> bool) (parse_float : string -> option Q)
+Definition log_correct {RG : ReGroups} (re_match : string -> string -> bool) (parse_float : string -> option Q)
     (json_get : string -> list string -> string) (hash_labels : labels -> Z)
     (tie : forall A : Type, list A -> list A) (q : strsel) (c : pctx) (d : database) : Prop :=
   exists sel rows outs,
@@ -332,7 +371,7 @@ Definition log_correct (re_match : string -> string -> bool) (parse_float : stri
     /\ eval re_match parse_float json_get hash_labels tie (to_sqldb c d) sel = Some rows
     /\ map row_out rows = map Some outs
     /\ logql_sem re_match parse_float q c d outs.
-Definition log_correct2 (re_match : string -> string -> bool) (parse_float : string -> option Q)
+Definition log_correct2 {RG : ReGroups} (re_match : string -> string -> bool) (parse_float : string -> option Q)
     (json_get : string -> list string -> string) (hash_labels : labels -> Z)
     (tie : forall A : Type, list A -> list A) (q : strsel) (c : pctx) (d : database) : Prop :=
   exists sel rows outs,
@@ -343,7 +382,7 @@ Definition log_correct2 (re_match : string -> string -> bool) (parse_float : str
 
 (* C07 at full strength over the modelled fragment (false: see absent_guard) *)
 Definition log_sound_complete_stmt : Prop :=
-  forall re_match parse_float json_get hash_labels (tie : forall A : Type, list A -> list A),
+  forall (RG : ReGroups) re_match parse_float json_get hash_labels (tie : forall A : Type, list A -> list A),
     (forall A (l : list A), Permutation (tie A l) l) ->
     forall q c d, in_fragment q = true -> oracle_ok re_match parse_float q -> ctx_ok c = true -> db_ok c d ->
     log_correct re_match parse_float json_get hash_labels tie q c d.
